@@ -75,6 +75,13 @@ def run(tier):
             if thorough:
                 calls += [{"t": "lc", "m": 1000}, {"t": "lc", "m": 5000}]
             inputs.append({"id": iid, "mode": mode, "n": n, "seed": rng.randrange(1 << 40), "calls": calls})
+    # Maurer with planted recurrence distances (2^e - 1, 2^e, 2^e + 1 for e = 6..12, 8192, 16384; 'gapslong': one of 32768, 65535, 65536, 65537, 100000 per input)
+    for n in ([1000000, 1000005] + ([4000000] if thorough else [])):
+        iid += 1
+        inputs.append({"id": iid, "mode": "gaps", "n": n, "seed": rng.randrange(1 << 40), "calls": [{"t": "maurer"}]})
+        for sd5 in range(5 if thorough else 2):
+            iid += 1
+            inputs.append({"id": iid, "mode": "gapslong", "n": n, "seed": 5 * rng.randrange(1 << 36) + (sd5 + iid) % 5, "calls": [{"t": "maurer"}]})
     stattrace.trace_inputs(run, hz, inputs)
     run.rule = ("rank: every bit sequence forming 1-3 matrices of size 2/3(/4) plus tail, 32x32 matrices of every rank by construction; "
                 "linear complexity: every bit sequence for m=4..10(12), descriptor blocks (LFSR by lemma, 0^k 1 0^.., zero, one, 0^(m-1)1) for m=500/1000/5000; "
